@@ -142,6 +142,19 @@ PROPS = {
                    "(complete, never empty or shortened); protocol header ++ payload = content. Correspondence: every input parsed under all 81 policy combinations with repairs off, headers and drained blocks compared across policies on the implementation",
         level_note=COMMON_NOTE,
     ),
+    "C16": dict(
+        title="Block accessors give the same answers in any call order",
+        lean_modules=["Gowarc.Props.C16"],
+        n_quick=4000, n_thorough=20000,
+        required_theorems=["C16_any_order", "C16_digest_size", "C16_cached_reads", "C16_uncached_once", "C16_reachable", "step_inv", "C16_cache"],
+        model_assumptions=["readers are consumed (fully, partly, not at all) before the next accessor call; a stale reader kept across a later accessor is outside the statement",
+                           "warc-fields and revisit blocks hold their bytes in memory (trivial accessors) and are covered by the correspondence of built/parsed records only",
+                           "the hash is abstract in the theorems: a digest result is recorded as 'format(H(these bytes))'"],
+        design_ref="DESIGN.md section 5, C16",
+        level_text="State-machine model of the lazy digest logic of genericBlock / httpRequestBlock / httpResponseBlock with an invariant preserved by every accessor; theorems for arbitrary call sequences: digests and size always describe the complete block, "
+                   "every reader of a cached block yields the identical bytes from the start, a further content access on an uncached block fails with the explicit error. Correspondence on blocks built directly over cached / one-shot sources and on blocks of built and parsed records",
+        level_note="Trusted: Lean kernel, correspondence harness (blocks are constructed through an overlay export). Modelled by hand: block.go, httpblock.go accessor logic.",
+    ),
 }
 
 
